@@ -38,7 +38,7 @@ REQUIRED = {"roundtrip": 12000, "written": 10000, "foreign": 12000, "attributes"
             "written/xyz": 1500, "written/stl": 600,
             "foreign/obj": 1800, "foreign/mesh": 1800, "foreign/geogram_ascii": 1800, "foreign/off": 1800, "foreign/tet": 1800,
             "foreign/xyz": 1800, "foreign/stl": 800}
-CASE_TIMEOUT = {"quick": 60.0, "thorough": 300.0}
+CASE_TIMEOUT = {"quick": 30.0, "thorough": 300.0}
 ASSUMPTIONS = ["element kinds: edges, triangles/quads/polygons, tetrahedra and hexahedra (VTK vertex order); no invalid or repeated elements",
                "coordinates are finite doubles; for stl they are limited to the float32 range and compared as float32(coordinate)",
                "obj / medit edges: every declared edge must come back and nothing that is not an edge of the mesh may appear "
